@@ -191,7 +191,7 @@ def body_solve(S, spec):
                 det = B[0, 0]
             else:
                 det = B[0, 0] * B[1, 1] - B[0, 1] * B[1, 0]
-            zt.ctl().assume(zt.parts(det)[0] != 0, "solve: blocks of A are invertible")
+            zt.ctl().assume(zt.parts(det)[0] != 0, "input: blocks of A are invertible (solve)")
     x = sr.linalg.solve(a, b)
     probs = orc.audit(x)
     if probs:
@@ -303,6 +303,8 @@ def classify(v):
     import re
     a = ((v.get("spec") or {}).get("a") or {})
     tags = {"op": re.sub(r"[\[:@].*", "", str(v.get("name", ""))), "fermionic": bool(a.get("fermionic"))}
+    if str(v.get("group", "")).startswith("solve"):
+        tags["op"] = "solve"  # (a numeric falsification may surface the same finding as an exception inside a @ x)
     if a.get("fermionic") and "sym" in a:
         tags["a_odd"] = bool(gs.parity(a["sym"], a["charge"]))
     return tags
